@@ -1,7 +1,7 @@
 (* RenumberProofsTop.v -- C10, part 5: the known-finding class as a boolean predicate, the
    theorems in the form used by Props/C10.v, witnesses and refutations. *)
-From LV Require Import Base.Bytes Model.Obj Model.DocQ Model.PageTree Model.Traverse Model.Renumber Model.RenumberV0
-  Spec.RenumberSpec Proofs.RenumberProofsMap Proofs.RenumberProofsTrav Proofs.RenumberProofs Proofs.RenumberProofsDense.
+From LV Require Import Base.Bytes Model.Obj Model.DocQ Model.PageTree Model.Traverse Model.Renumber Model.RenumberV0 Model.RenumberV1
+  Spec.RenumberSpec Proofs.RenumberProofsMap Proofs.RenumberProofsTrav Proofs.RenumberProofsTravO Proofs.RenumberProofs Proofs.RenumberProofsDense.
 
 (* ---------- reachable ids, computed ---------- *)
 Definition reach_list (tr : dict) (m : objmap) : list oid :=
@@ -27,8 +27,11 @@ Definition bm_targets (d : rdoc) : list oid := map (fun kb => bm_page (snd kb)) 
 Definition used (d : rdoc) (x : oid) : Prop :=
   has_obj (d_objects (base d)) x \/ reach (d_trailer (base d)) (d_objects (base d)) x \/ In x (bm_targets d).
 
-(* KnownClass (finding C10 dangling-in-range), decided on the input: some reference reachable from
-   the trailer, or some bookmark target, names no object and its number lies in [start, start+n) *)
+(* KnownClass (finding C10 dangling-in-range, FIXED in /repo): the inputs on which the code before the repair
+   (Model/RenumberV1.v) could fail, decided on the input: some reference reachable from the trailer, or some
+   bookmark target, names no object and its number lies in [start, start+n).  No theorem about the current
+   code has this hypothesis any more; the predicate is kept for the refutation on the old model and because
+   Proofs/EditProofs*.v (C11) name it in their domain. *)
 Definition KnownClass (start : N) (d : rdoc) : bool :=
   let m := d_objects (base d) in
   existsb (fun x => negb (mem_oid x (map fst m)) && (start <=? fst x)%N && (fst x <? start + N.of_nat (length m))%N)
@@ -56,28 +59,27 @@ Definition fits (start : N) (d : rdoc) : Prop :=
 
 (* ---------- dense pass, stated on documents ---------- *)
 Theorem dense_pass_iso start d :
-  sorted_keys (d_objects (base d)) -> fits start d -> KnownClass start d = false ->
+  sorted_keys (d_objects (base d)) -> fits start d ->
   exists d' rho,
     dense_pass start d = Done d' /\
-    inj_on (used d) rho /\
-    d_trailer (base d') = rename_dict rho (d_trailer (base d)) /\
-    (forall id, reach (d_trailer (base d)) (d_objects (base d)) id ->
-                lookup (d_objects (base d')) (rho id) = option_map (rename rho) (lookup (d_objects (base d)) id)) /\
-    (forall id, used d id -> ~ reach (d_trailer (base d)) (d_objects (base d)) id ->
+    inj_on (has_obj (d_objects (base d))) rho /\
+    d_trailer (base d') = rename_dict_o (live (d_objects (base d)) rho) (d_trailer (base d)) /\
+    (forall id, reach (d_trailer (base d)) (d_objects (base d)) id -> has_obj (d_objects (base d)) id ->
+                lookup (d_objects (base d')) (rho id) =
+                option_map (rename_o (live (d_objects (base d)) rho)) (lookup (d_objects (base d)) id)) /\
+    (forall id, has_obj (d_objects (base d)) id -> ~ reach (d_trailer (base d)) (d_objects (base d)) id ->
                 lookup (d_objects (base d')) (rho id) = lookup (d_objects (base d)) id) /\
-    bm_table d' = renumber_bookmarks_with rho (bm_table d) /\
+    bm_table d' = renumber_bookmarks_with
+                    (live_or (d_objects (base d)) rho (no_page start (map fst (d_objects (base d))))) (bm_table d) /\
     map fst (d_objects (base d')) = dense_ids (map fst (d_objects (base d))) start /\
     d_max_id (base d') = dense_max d start /\
     (forall x, reach (d_trailer (base d')) (d_objects (base d')) x <->
-               exists id, reach (d_trailer (base d)) (d_objects (base d)) id /\ x = rho id) /\
+               exists id, reach (d_trailer (base d)) (d_objects (base d)) id /\ has_obj (d_objects (base d)) id /\ x = rho id) /\
     bookmarks d' = bookmarks d /\ d_version (base d') = d_version (base d) /\ d_binary_mark (base d') = d_binary_mark (base d).
 Proof.
-  intros S F K.
-  destruct (dense_pass_spec d start (used d) S) as [d' [rho H]].
+  intros S F.
+  destruct (dense_pass_spec d start S) as [d' [rho H]].
   - unfold fits in F. unfold U32_MAX. lia.
-  - intros x Hx. left; exact Hx.
-  - intros x Hx. right; left; exact Hx.
-  - apply not_known_out. exact K.
   - exists d', rho. intuition.
 Qed.
 
@@ -152,7 +154,7 @@ Definition holds_ref (m : objmap) (id : oid) (k : bytes) : option obj :=
   match lookup m id with Some (ODict dd) => dict_get dd k | _ => None end.
 
 Theorem dangling_refuted :
-  exists d', renumber_objects_with 1 ex_dangling = Done d' /\
+  exists d', renumber_objects_with_v1 1 ex_dangling = Done d' /\
     KnownClass 1 ex_dangling = true /\
     reach (d_trailer (base ex_dangling)) (d_objects (base ex_dangling)) (5, 0)%N /\
     lookup (d_objects (base ex_dangling)) (5, 0)%N = None /\
@@ -164,6 +166,35 @@ Proof.
   eexists. split; [vm_compute; reflexivity|]. split; [vm_compute; reflexivity|]. split.
   - eapply reach_step; [apply reach_root; left; reflexivity | vm_compute; reflexivity | vm_compute; auto].
   - repeat split; try (vm_compute; reflexivity). vm_compute. discriminate.
+Qed.
+
+(* the same input on the repaired code: the dangling reference is written as what it denotes, null;
+   number 5 is still given to old object 9, and nothing that meant "no object" points to it *)
+Theorem dangling_repaired :
+  exists d', renumber_objects_with 1 ex_dangling = Done d' /\
+    holds_ref (d_objects (base d')) (1, 0)%N (bs "Gone") = Some ONull /\
+    lookup (d_objects (base d')) (5, 0)%N = lookup (d_objects (base ex_dangling)) (9, 0)%N /\
+    d_trailer (base d') = [(K_Root, ORef 1 0); (bs "Nine", ORef 5 0)]%N.
+Proof. eexists. split; [vm_compute; reflexivity|]. repeat split; vm_compute; reflexivity. Qed.
+
+(* a bookmark whose page names no object, start 0, first object of generation 0: the pinned code leaves the
+   target (0,0), which then names the object numbered 0; the repaired code writes the "no page" id (0,1) *)
+Definition ex_bm0 : rdoc :=
+  mkrdoc (mkdoc [(K_Root, ORef 4 0)]
+     [((4,0), ODict [(K_Type, OName (bs "Catalog"))]); ((7,0), ODict [(bs "Tag", S_ "seven")])]%N 7)
+    [(None, (0,0)); (None, (7,0)); (None, (2,0))]%N.
+
+Theorem dangling_bookmark_refuted :
+  exists d0 d1, renumber_objects_with_v1 0 ex_bm0 = Done d0 /\ renumber_objects_with 0 ex_bm0 = Done d1 /\
+    map (fun kb => bm_page (snd kb)) (bm_table ex_bm0) = [(0,0); (7,0); (2,0)]%N /\
+    lookup (d_objects (base ex_bm0)) (0,0)%N = None /\
+    map (fun kb => bm_page (snd kb)) (bm_table d0) = [(0,0); (1,0); (2,0)]%N /\
+    lookup (d_objects (base d0)) (0,0)%N <> None /\
+    map (fun kb => bm_page (snd kb)) (bm_table d1) = [(0,1); (1,0); (0,1)]%N /\
+    lookup (d_objects (base d1)) (0,1)%N = None.
+Proof.
+  do 2 eexists. split; [vm_compute; reflexivity|]. split; [vm_compute; reflexivity|].
+  repeat split; try (vm_compute; reflexivity). vm_compute. discriminate.
 Qed.
 
 (* two pages whose ids are swapped with respect to page order, bookmarks on both, an unreachable
